@@ -676,13 +676,34 @@ class World:
                  and _owner(fnode, n) is fnode]
         loops.sort(key=lambda n: (n.lineno, n.col_offset))
         k = loops.index(node)
-        if k >= len(c.loops) or c.loops[k] is None:
-            return None
-        spec = c.loops[k]
         head = ast.unparse(node).split('\n')[0]
+        spec = c.loops[k] if k < len(c.loops) else None
+        if spec is None or (spec.get('anchor') and not head.startswith(
+                spec['anchor']) and _unify_header(spec['anchor'], node)
+                is None):
+            # loops were added / removed / reordered around it: the loop
+            # contract belongs to the loop whose header it names - provided
+            # exactly one loop of the function carries that header
+            cands = [sp for sp in c.loops if sp and sp.get('anchor') and (
+                head.startswith(sp['anchor']) or _unify_header(
+                    sp['anchor'], node) is not None)]
+            same = [n for n in loops if n is not node and any(
+                ast.unparse(n).split('\n')[0].startswith(sp['anchor'])
+                or _unify_header(sp['anchor'], n) is not None
+                for sp in cands)]
+            if len(cands) == 1 and not same:
+                spec = cands[0]
+            elif spec is None:
+                return None
         if spec.get('anchor') and not head.startswith(spec['anchor']):
-            raise Unsupported('loop anchor moved: expected %r, found %r' % (
-                spec['anchor'], head))
+            # the same loop with consistently renamed variables is still the
+            # anchored loop: the invariant's names are aliased to the new ones
+            alias = _unify_header(spec['anchor'], node)
+            if alias is None:
+                raise Unsupported('loop anchor moved: expected %r, found %r'
+                                  % (spec['anchor'], head))
+            spec = dict(spec)
+            spec['alias'] = alias
         return spec
 
     def exec_loop(self, it, node, fr):
@@ -728,7 +749,7 @@ class World:
                 it.exec_block(node.orelse, fr)
                 return
             bound += 1
-            if bound > 64:
+            if bound > (8 if S.FIXED_SEQ_LEN[0] is not None else 64):
                 raise Unsupported('while loop without invariant exceeds '
                                   'unrolling bound (line %d)' % node.lineno)
             try:
@@ -754,7 +775,7 @@ class World:
         ghost = Frame(parent=fr)
         if is_for:
             ghost.vars[idx_name] = 0
-        self.ghost_env(it, ghost)
+        self.ghost_env(it, ghost, spec.get('alias'))
         for j, inv in enumerate(spec.get('invariant', [])):
             g = self.spec_eval(it, inv, ghost)
             ob = path.prove(g, '%s:inv-init:%d:%d' % (name, line, j + 1),
@@ -801,7 +822,7 @@ class World:
                 else z3.IntVal(ispec.length)
             path.assume(n <= ln)
             ghost.vars[idx_name] = SInt(n)
-        self.ghost_env(it, ghost)
+        self.ghost_env(it, ghost, spec.get('alias'))
         for inv in spec.get('invariant', []):
             path.assume(S.as_bool_term(it.truth(
                 self.spec_eval(it, inv, ghost))))
@@ -828,7 +849,7 @@ class World:
         ghost = Frame(parent=fr)
         if is_for:
             ghost.vars[idx_name] = SInt(n + 1)
-        self.ghost_env(it, ghost)
+        self.ghost_env(it, ghost, spec.get('alias'))
         for j, inv in enumerate(spec.get('invariant', [])):
             g = self.spec_eval(it, inv, ghost)
             ob = path.prove(g, '%s:inv-step:%d:%d' % (name, line, j + 1),
@@ -836,15 +857,21 @@ class World:
             ob.text = inv
         raise CutPath()
 
-    def ghost_env(self, it, ghost):
+    def ghost_env(self, it, ghost, alias=None):
         if it.out is not None:
             ghost.vars['out'] = it.out.seq
         ghost.vars.update(it.ghost_vars)
         ghost.vars.update(self.spec_helpers(it))
+        for old_name, new_name in (alias or {}).items():
+            if old_name != new_name and ghost.parent is not None and \
+                    ghost.parent.has(new_name) and \
+                    old_name not in ghost.vars:
+                ghost.vars[old_name] = ghost.parent.lookup(new_name)
 
     def havoc(self, it, fr, nm, spec):
         cur = fr.lookup(nm)
-        decl = (spec.get('havoc') or {}).get(nm)
+        inv_alias = {v: k for k, v in (spec.get('alias') or {}).items()}
+        decl = (spec.get('havoc') or {}).get(inv_alias.get(nm, nm))
         if decl == 'SSet':
             decl = None
         pc = it.path
@@ -1137,3 +1164,44 @@ def _has_yield(node):
 
 def _may_call(node):
     return any(isinstance(n, ast.Call) for n in ast.walk(node))
+
+
+def _unify_header(anchor, node):
+    """Match the contract's loop header text against the real loop header up
+    to a consistent (one-to-one) renaming of variables.  -> {expected name:
+    actual name} or None."""
+    try:
+        exp = ast.parse(anchor.rstrip(':') + ':\n    pass').body[0]
+    except SyntaxError:
+        # the anchor may be a prefix of the header ("for key, value")
+        return None
+    if type(exp) is not type(node):
+        return None
+    fwd, bwd = {}, {}
+
+    def uni(a, b):
+        if type(a) is not type(b):
+            return False
+        if isinstance(a, ast.Name):
+            if fwd.setdefault(a.id, b.id) != b.id:
+                return False
+            return bwd.setdefault(b.id, a.id) == a.id
+        if isinstance(a, ast.AST):
+            for f in a._fields:
+                if f in ('ctx',):
+                    continue
+                if not uni(getattr(a, f, None), getattr(b, f, None)):
+                    return False
+            return True
+        if isinstance(a, list):
+            return len(a) == len(b) and all(uni(x, y) for x, y in zip(a, b))
+        return a == b
+    if isinstance(exp, ast.For):
+        ok = uni(exp.target, node.target) and uni(exp.iter, node.iter)
+    else:
+        ok = uni(exp.test, node.test)
+    if not ok:
+        return None
+    # only LOCAL variables may be renamed: a changed function / attribute /
+    # global name is a different loop
+    return fwd
